@@ -513,6 +513,9 @@ def run_oracle(ctx):
                 if r is None:
                     break
                 cur = r
+    from .. import c12_api
+    from .c12 import check_one_step as _cos
+    c12_api.run_api_cases(ctx, 'adaptive', _cos, check_adaptive, rng)
     m = skfem.MeshLine(np.array([0., 1, 2, 3]))
     check_adaptive(ctx, 'line', m, [0], {'a': [1]}, {}, 'F4-line-example')
     m = skfem.MeshTet()
